@@ -230,8 +230,46 @@ func runC09(tier string, seed uint64, rep *Report) {
 		}
 		rep.Add(strings.TrimSpace(b.String()), "lin", strings.ReplaceAll(strings.TrimSpace(listing()), "\n", " ;; "), concurrentWrite, tag, fmt.Sprintf("threads:%d", len(progs)), fmt.Sprintf("atoms:%d", natoms))
 	}
+	c09NestedPrint(rep, tier)
 	c09Library(r, rep, tier)
 	c09KnownFindings(rep)
+}
+
+// printing an atom that holds another atom while an update function of the inner atom resets the outer one:
+// the printer must not hold the outer atom's lock while it waits for the inner one
+func c09NestedPrint(rep *Report, tier string) {
+	n := 5
+	if tier == "thorough" {
+		n = 60
+	}
+	for round := 0; round < n; round++ {
+		w, _ := NewWorld()
+		w.EvalText(context.Background(), "(do (def b (atom 0)) (def a (atom b)))")
+		var clock atomic.Int64
+		var p1, p2 []ThreadOp
+		for k := 0; k < 25; k++ {
+			p1 = append(p1, ThreadOp{Src: "(pr-str a)"})
+			p2 = append(p2, ThreadOp{Src: "(swap! b (fn [x] (do (yield!) (reset! a b) (+ x 1))))"})
+		}
+		calls, hung := RunThreads(w, &clock, [][]ThreadOp{p1, p2, p1}, 20*time.Second)
+		rep.Histogram["scenario:print-nested-atom-vs-inner-swap-resetting-outer"]++
+		desc := "(def b (atom 0)) (def a (atom b)); threads 0 and 2: 25 x (pr-str a); thread 1: 25 x (swap! b (fn [x] (do (yield!) (reset! a b) (+ x 1))))"
+		idx := rep.Add("N 0 0", "lin", desc, true)
+		if hung {
+			rep.Violate(idx, "printing an atom that holds an atom, against an update function of the inner atom that resets the outer one, blocked for ever", desc)
+			emergencyFlush(rep)
+		}
+		for t := range calls {
+			for _, c := range calls[t] {
+				if c.Err != nil || c.Panic != nil {
+					rep.Violate(idx, fmt.Sprintf("%s failed: %v %v", c.Src, c.Err, c.Panic), desc)
+				}
+			}
+		}
+		if o := w.EvalText(context.Background(), "@b"); o.Val != 25 {
+			rep.Violate(idx, fmt.Sprintf("after 25 increments the inner atom holds %s", Show(o.Val)), desc)
+		}
+	}
 }
 
 // library code built on atoms: gensym hands out distinct symbols, memoize answers consistently
